@@ -7,7 +7,7 @@ from . import yawgen as Y
 RULE = ("blocks with any flag byte, any signed 16-bit offset, 0..20 setpoints with durations from the boundary set and random "
         "(>= 1 ms; a separate class with 0 ms away from their instant) and changes incl. +-32767/-32768 (accumulated yaw beyond "
         "+-3276.7 deg), trailing partial deltas; yaw at/around every boundary, interior, <= 0, +-inf; rate strictly inside "
-        "setpoints and after the end. Non-trivial = at least one setpoint and one successful query.")
+        "setpoints and after the end; total duration of a fresh player and of a player parked inside each setpoint. Non-trivial = at least one setpoint and one successful query.")
 EXPLANATION = "fields/durations exact; |yaw - exact| <= yaw_tol + 2^-22|exact|; |rate - exact| <= 2^-20 |exact| + 2^-18"
 ASSUMPTIONS = ["float32 rounding bound yaw_tol is an assumed bound with a safety factor 4"]
 
@@ -37,6 +37,16 @@ def cases(rng, tier):
                 qs.append("r" + fhex(t))
         qs += ["r" + fhex(bs[-1] / 1000.0 + 3), "d00000000", "r7f800000"]
         yield ("yaw f %s %s" % (hexs(b), ",".join(qs)), "zero-dur" if zero else "gen")
+        if not zero and i % 4 == 0 and len(y["deltas"]) >= 2:
+            # the duration asked of a player that has been used: park it inside each setpoint first
+            ks = [k for k in range(len(bs) - 1) if bs[k + 1] > bs[k]]
+            rng.shuffle(ks)
+            hq = []
+            for k in ks[:4]:
+                t = (bs[k] + (bs[k + 1] - bs[k]) * rng.choice([0.25, 0.5, 0.75])) / 1000.0
+                hq += [rng.choice("yr") + fhex(t), "d00000000"]
+            if hq:
+                yield ("yaw h %s %s" % (hexs(b), ",".join(hq)), "used-player-duration")
     for b in ([], [1], [1, 2], [0, 0, 0], [1, 0x10, 0, 5]):
         yield ("yaw f %s y00000000,r3f800000" % hexs(b), "short")
 
